@@ -164,6 +164,8 @@ def worker(ctx, job):
             spec["crash"] = cp
         return fsx.run(spec, ctx.dir)
 
+    _raw_run_one = run_one
+    run_one = lambda cp: fsx.confirmed(lambda: _raw_run_one(cp))
     if job["kind"] == "probe":
         rep = run_one(None)
         res["evals"] += 1
